@@ -317,16 +317,42 @@ Proof.
     rewrite (IH _ n W' (or_intror Hl)). rewrite Hl. now destruct (existsb _ args).
 Qed.
 
-Lemma meta_of_fold args : meta_of args = fold_left meta_step args [].
-Proof. reflexivity. Qed.
+Lemma orb_lists_nil_r l : orb_lists l [] = l.
+Proof. destruct l; reflexivity. Qed.
+
+Lemma flat_cases_deep_nil : forall cs, flat_cases cs = true -> expl_cases_deep cs = [].
+Proof.
+  induction cs as [|a r IH|r IH]; intros F; [reflexivity| |].
+  - destruct a as [v|cs']; [|discriminate]. cbn [flat_cases] in F. cbn [expl_cases_deep expl_arg_deep]. now rewrite (IH F).
+  - cbn [flat_cases] in F. cbn [expl_cases_deep]. now apply IH.
+Qed.
+
+Lemma flat_expl_arg a acc : flat_arg a = true -> orb_lists acc (expl_arg a) = meta_step acc a.
+Proof.
+  intros F. unfold expl_arg. destruct gen_nested_meta.
+  - destruct a as [v|cs]; cbn [expl_arg_deep meta_step]; [apply orb_lists_nil_r|].
+    cbn [flat_arg] in F. now rewrite (flat_cases_deep_nil cs F), orb_lists_nil_r.
+  - destruct a as [v|cs]; cbn [meta_step]; [apply orb_lists_nil_r|reflexivity].
+Qed.
+
+Lemma meta_of_fold_gen : forall args acc, (forall a, In a args -> flat_arg a = true) ->
+  fold_left (fun acc a => orb_lists acc (expl_arg a)) args acc = fold_left meta_step args acc.
+Proof.
+  induction args as [|a args IH]; intros acc F; [reflexivity|]. cbn [fold_left].
+  rewrite (flat_expl_arg a acc (F a (or_introl eq_refl))). apply IH. intros a' Ha'. apply F. now right.
+Qed.
+
+Lemma meta_of_fold args : (forall a, In a args -> flat_arg a = true) -> meta_of args = fold_left meta_step args [].
+Proof. intros F. unfold meta_of. now apply meta_of_fold_gen. Qed.
 
 Definition has_switch (args : list arg) : bool := existsb (fun a => match a with ASw _ => true | _ => false end) args.
 
-Lemma meta_hd args n : (forall a, In a args -> well_formed_arg n a = true) -> has_switch args = true -> 1 <= n ->
+Lemma meta_hd args n : (forall a, In a args -> well_formed_arg n a = true) -> (forall a, In a args -> flat_arg a = true) ->
+  has_switch args = true -> 1 <= n ->
   hd false (meta_of args) = true.
 Proof.
-  intros W H Hn. assert (E : nth 0 (meta_of args) false = true).
-  { rewrite meta_of_fold, nth_meta_fold. cbn [nth orb]. unfold has_switch in H. rewrite existsb_exists in *.
+  intros W FL H Hn. assert (E : nth 0 (meta_of args) false = true).
+  { rewrite (meta_of_fold args FL), nth_meta_fold. cbn [nth orb]. unfold has_switch in H. rewrite existsb_exists in *.
     destruct H as (a & Ha & Hs). exists a. split; [exact Ha|]. destruct a as [v|cs]; [discriminate|].
     specialize (W _ Ha). cbn [well_formed_arg] in W. apply andb_true_iff in W. destruct W as [_ F].
     destruct cs; try discriminate. reflexivity. }
@@ -407,9 +433,10 @@ Proof.
   intros fd m args n d HE Hm Hn W Hs Hd Hbit.
   set (x := N.land m (difficulty_bits fd)) in *. set (aux := N.land m (aux_bits fd)).
   assert (W1 : forall a, In a args -> well_formed_arg n a = true) by (intros a Ha; apply (W a Ha)).
+  assert (FL : forall a, In a args -> flat_arg a = true) by (intros a Ha; apply (W a Ha)).
   assert (Hlen : length (meta_of args) = n).
-  { rewrite meta_of_fold, (length_meta_fold args [] n W1 (or_introl eq_refl)). unfold has_switch in Hs. now rewrite Hs. }
-  assert (Hhd : hd false (meta_of args) = true) by (apply (meta_hd args n W1 Hs); lia).
+  { rewrite (meta_of_fold args FL), (length_meta_fold args [] n W1 (or_introl eq_refl)). unfold has_switch in Hs. now rewrite Hs. }
+  assert (Hhd : hd false (meta_of args) = true) by (apply (meta_hd args n W1 FL Hs); lia).
   assert (Hx : (x <= 255)%N) by (apply land_le_255, Hm).
   pose proof (check1_ok x (meta_of args) d Hx) as C. rewrite Hlen in C. specialize (C Hn Hhd Hd).
   unfold check1 in C. apply andb_true_iff in C. destruct C as [Cst C]. rewrite Hbit in C. cbn [negb orb] in C.
@@ -440,7 +467,7 @@ Proof.
     assert (Hjn : In j (seq 0 n)) by (apply in_seq; lia).
     specialize (Choles j Hjn). rewrite !orb_true_iff in Choles.
     destruct Choles as [[Cj|Cj]|Cj]; [apply Nat.leb_le in Cj; lia|apply Nat.ltb_lt in Cj; lia|].
-    apply negb_true_iff in Cj. rewrite meta_of_fold, nth_meta_fold in Cj. cbn [nth orb] in Cj.
+    apply negb_true_iff in Cj. rewrite (meta_of_fold args FL), nth_meta_fold in Cj. cbn [nth orb] in Cj.
     destruct j; cbn [nth orb] in Cj.
     + lia.
     + assert (X : forall l, existsb (fun a => expl_at a (S j)) l = false -> In (ASw cs) l -> expl_at (ASw cs) (S j) = false).
@@ -513,17 +540,61 @@ Proof.
     destruct (negb _) in D; [discriminate|].
     destruct s as [|c [|pm [|]]]; try discriminate.
     destruct (negb _) in D; [discriminate|]. destruct (negb _) in D; [discriminate|].
-    destruct (pm =? CH_MINUS)%N; [apply (define_preserves_consistent fd c (Z.to_nat i) false); assumption|].
-    destruct (pm =? CH_PLUS)%N; [apply (define_preserves_consistent fd c (Z.to_nat i) true); assumption|discriminate].
+    unfold repoint_guard in D.
+    destruct (pm =? CH_MINUS)%N.
+    { destruct (gen_repoint_check && _) in D; [discriminate|]. apply (define_preserves_consistent fd c (Z.to_nat i) false); assumption. }
+    destruct (pm =? CH_PLUS)%N; [|discriminate].
+    destruct (gen_repoint_check && _) in D; [discriminate|]. apply (define_preserves_consistent fd c (Z.to_nat i) true); assumption.
+Qed.
+
+Lemma no_repointb_sound fd c i : no_repointb fd c i = true -> no_repoint fd c i.
+Proof.
+  unfold no_repointb, no_repoint. rewrite forallb_forall. intros H b Hb Hne Hf.
+  specialize (H b). rewrite in_seq in H. specialize (H (conj (Nat.le_0_l b) Hb)).
+  apply orb_true_iff in H. destruct H as [H|H]; [apply Nat.eqb_eq in H; contradiction|].
+  rewrite Hf in H. apply negb_true_iff in H. rewrite N.eqb_refl in H. discriminate.
+Qed.
+
+(* when the source rejects re-pointing definitions (gen_repoint_check), every accepted sequence of
+   definitions preserves the invariant *)
+Lemma mapfile_ops_consistent_checked : gen_repoint_check = true -> forall ops fd fd',
+  Consistent fd -> apply_mapfile_ops fd ops = Ok fd' -> Consistent fd'.
+Proof.
+  intros G. induction ops as [|[i s] ops IH]; intros fd fd' HC A.
+  - inversion A. now subst.
+  - cbn [apply_mapfile_ops] in A.
+    destruct (define_flag_from_mapfile fd i s) as [fd1| | |] eqn:D; try discriminate. cbn [obind] in A.
+    apply (IH fd1 fd'); [|exact A].
+    unfold define_flag_from_mapfile in D.
+    destruct (negb _) in D; [discriminate|].
+    destruct s as [|c [|pm [|]]]; try discriminate.
+    destruct (negb _) in D; [discriminate|]. destruct (negb _) in D; [discriminate|].
+    unfold repoint_guard in D. rewrite G in D. cbn [andb] in D.
+    destruct (pm =? CH_MINUS)%N.
+    { destruct (no_repointb fd c (Z.to_nat i)) eqn:NR; cbn [negb] in D; [|discriminate].
+      apply (define_preserves_consistent fd c (Z.to_nat i) false); [exact HC|now apply no_repointb_sound|exact D]. }
+    destruct (pm =? CH_PLUS)%N; [|discriminate].
+    destruct (no_repointb fd c (Z.to_nat i)) eqn:NR; cbn [negb] in D; [|discriminate].
+    apply (define_preserves_consistent fd c (Z.to_nat i) true); [exact HC|now apply no_repointb_sound|exact D].
+Qed.
+
+Lemma label_roundtrip_reachable : gen_repoint_check = true -> forall ops fd0 fd,
+  default_defs = Ok fd0 -> apply_mapfile_ops fd0 ops = Ok fd ->
+  forall m, (m <= 255)%N -> exists s, mask_to_label fd m = Ok s /\ parse_label fd s = Ok m.
+Proof.
+  intros G ops fd0 fd E0 A. apply label_roundtrip_sec.
+  apply (mapfile_ops_consistent_checked G ops fd0 fd); [|exact A].
+  destruct default_defs_consistent as (fd0' & E0' & HC). rewrite E0 in E0'. inversion E0'. now subst.
 Qed.
 
 (* known defect #10: a mapfile may give two bits one name *)
 Definition dup_ops : list (Z * list chr) := [(0%Z, [69; 45]%N); (4%Z, [69; 45]%N)].   (* `0 E-`, `4 E-` *)
 
-Lemma label_roundtrip_all_defs_refuted :
+Lemma label_roundtrip_all_defs_refuted : gen_repoint_check = false ->
   exists fd0 fd m s, default_defs = Ok fd0 /\ apply_mapfile_ops fd0 dup_ops = Ok fd /\ (m <= 255)%N /\
     mask_to_label fd m = Ok s /\ parse_label fd s <> Ok m.
 Proof.
+  intros G. first [ vm_compute in G; discriminate G | idtac ].
   eexists. eexists. exists 1%N, [69%N].
   split; [vm_compute; reflexivity|]. split; [vm_compute; reflexivity|]. split; [lia|].
   split; [vm_compute; reflexivity|]. vm_compute. discriminate.
@@ -533,9 +604,19 @@ Qed.
 Definition nested_arg : arg :=
   ASw (CSome (ASw (CSome (AVal 1) (CSome (AVal 2) (CSome (AVal 3) (CSome (AVal 4) CNil))))) (CNone (CNone (CNone CNil)))).
 
-Lemma elaborate_nested_refuted :
+Lemma elaborate_nested_refuted : gen_nested_meta = false ->
   exists fd copies, default_defs = Ok fd /\ elaborate fd 255 [nested_arg] = Ok copies /\
     filter (fun c => bit (fst c) 1) copies = [(15%N, [1%Z])] /\ meaning nested_arg 1 = Ok 2%Z.
 Proof.
+  intros G. first [ vm_compute in G; discriminate G | idtac ].
   eexists. eexists. split; [vm_compute; reflexivity|]. split; [vm_compute; reflexivity|]. split; vm_compute; reflexivity.
+Qed.
+
+(* with the fix (gen_nested_meta) the nested statement of the witness is elaborated as it means *)
+Lemma elaborate_nested_fixed_example : gen_nested_meta = true ->
+  exists fd, default_defs = Ok fd /\
+    elaborate fd 255 [nested_arg] = Ok [(1%N, [1%Z]); (2%N, [2%Z]); (4%N, [3%Z]); (8%N, [4%Z])].
+Proof.
+  intros G. first [ vm_compute in G; discriminate G | idtac ].
+  eexists. split; vm_compute; reflexivity.
 Qed.
